@@ -134,3 +134,28 @@ package ring
 //@   loop 1: invariant idx: r != nil && ncalls(f) >= old(ncalls(f)) && ncalls(f) - old(ncalls(f)) < L && cur == seq[ncalls(f) - old(ncalls(f))]
 //@   loop 1: invariant args: forall j int :: {callret(f, j)} {callarg(f, j)} old(ncalls(f)) <= j && j < ncalls(f) ==> callarg(f, j) == seq[j - old(ncalls(f))] && callret(f, j)
 //@   loop 1: invariant shape: linked() && ringSeq(r, seq, L)
+//@
+//@ func (*Ring).Len
+//@   ghost seq imap[*Ring[T]], L int
+//@   requires [C10] linked()
+//@   requires [C10] r != nil ==> ringSeq(r, seq, L)
+//@   ensures  [C10] empty: r == nil ==> result == 0
+//@   ensures  [C10] size: r != nil ==> result == L
+//@   call scan#1: seq = seq, L = L
+//@   loop 1: invariant [C10] n == it1 && forall k int :: {yret1[k]} 0 <= k && k < it1 ==> yret1[k]
+//@
+//@ func (*Ring).Each
+//@   ghost seq imap[*Ring[T]], L int
+//@   role f yield
+//@   requires [C10] linked()
+//@   requires [C10] r != nil ==> ringSeq(r, seq, L)
+//@   ensures  [C10] empty: r == nil ==> ncalls(f) == old(ncalls(f))
+//@   ensures  [C10] count: ncalls(f) >= old(ncalls(f)) && (r != nil ==> ncalls(f) > old(ncalls(f)) && ncalls(f) - old(ncalls(f)) <= L)
+//@   ensures  [C10] args: r != nil ==> forall j int :: {callarg(f, j)} old(ncalls(f)) <= j && j < ncalls(f) ==> callarg(f, j) == seq[j - old(ncalls(f))].Value
+//@   ensures  [C10] went: forall j int :: {callret(f, j)} old(ncalls(f)) <= j && j < ncalls(f) - 1 ==> callret(f, j)
+//@   ensures  [C10] stopped: r != nil && ncalls(f) - old(ncalls(f)) < L ==> !callret(f, ncalls(f) - 1)
+//@   modifies calls(f)
+//@   call scan#1: seq = seq, L = L
+//@   loop 1: invariant [C10] count: ncalls(f) == old(ncalls(f)) + it1
+//@   loop 1: invariant [C10] args: forall j int :: {callarg(f, j)} old(ncalls(f)) <= j && j < ncalls(f) ==> callarg(f, j) == seq[j - old(ncalls(f))].Value
+//@   loop 1: invariant [C10] rets: forall k int :: {yret1[k]} 0 <= k && k < it1 ==> callret(f, old(ncalls(f)) + k) == yret1[k]
